@@ -5,7 +5,7 @@
    Only statements; every proof is `exact <lemma>`. *)
 From Coq Require Import List ZArith QArith Qcanon Bool Arith.
 From Dimod Require Import Base.Util Model.Poly Model.Comb Gen.Gen_Gates Model.Gates
-  Proofs.GatesFacts Props.Comb Gen.Gen_Combinations Proofs.CombRule Gen.Gen_Graph Proofs.GraphConstants Model.Knap Proofs.KnapFacts Model.QKnap Gen.Gen_Knap Proofs.KnapGen Model.MultCircuit Proofs.MultFacts Proofs.MultArith Proofs.MultAttain Proofs.MultAll Model.Qap Proofs.QapFacts Model.Magic Proofs.MagicFacts Model.Sat Proofs.SatFacts Gen.Gen_Sat Proofs.SatGen.
+  Proofs.GatesFacts Props.Comb Gen.Gen_Combinations Proofs.CombRule Gen.Gen_Graph Proofs.GraphConstants Model.Knap Proofs.KnapFacts Model.QKnap Gen.Gen_Knap Proofs.KnapGen Model.MultCircuit Proofs.MultFacts Proofs.MultArith Proofs.MultAttain Proofs.MultAll Model.Qap Proofs.QapFacts Model.Magic Proofs.MagicFacts Model.Sat Proofs.SatFacts Gen.Gen_Sat Proofs.SatGen Gen.Gen_Shapes Proofs.ShapeLocks.
 Import ListNotations.
 
 (* energy 0 on exactly the rows of the truth table, >= 1 on every other row (strength 1) *)
@@ -399,6 +399,18 @@ Theorem C17_planted_ground_state :
     (sat_energy cs (fun _ => 1%Z) <= sat_energy cs s)%Z.
 Proof. exact planted_ground_state. Qed.
 Print Assumptions C17_planted_ground_state.
+
+(* quadratic_assignment, magic_square and multiplication_circuit (wiring, naming functions) are mirrored by
+   hand; translators/shape_locks.py fails when a statement of them changes shape, and this fails when an
+   integer literal changes *)
+Theorem C17_shape_literals_unchanged :
+  quadratic_assignment_literals = [(0)%Z; (1)%Z; (2)%Z; (0)%Z; (4)%Z; (1)%Z; (1)%Z] /\
+  magic_square_literals = [(1)%Z; (2)%Z; (1)%Z; (1)%Z; (1)%Z; (0)%Z; (0)%Z; (0)%Z; (0)%Z; (1)%Z; (0)%Z; (1)%Z; (0)%Z; (0)%Z; (1)%Z; (0)%Z; (2)%Z; (2)%Z; (2)%Z; (4)%Z; (4)%Z; (2)%Z; (2)%Z] /\
+  multiplication_circuit_literals = [(1)%Z; (1)%Z; (0)%Z; (1)%Z; (2)%Z; (1)%Z; (0)%Z; (0)%Z; (1)%Z; (1)%Z; (1)%Z; (1)%Z; (0)%Z; (1)%Z; (1)%Z; (1)%Z; (0)%Z; (1)%Z; (1)%Z; (2)%Z] /\
+  anti_crossing_clique_literals = [(2)%Z; (6)%Z; (2)%Z; (1)%Z; (1)%Z; (1)%Z; (1)%Z; (1)%Z; (1)%Z; (0)%Z] /\
+  anti_crossing_loops_literals = [(2)%Z; (8)%Z; (4)%Z; (2)%Z; (1)%Z; (1)%Z; (1)%Z; (1)%Z; (1)%Z; (1)%Z; (2)%Z; (1)%Z; (3)%Z; (1)%Z; (1)%Z; (1)%Z; (2)%Z; (1)%Z; (3)%Z; (1)%Z; (0)%Z; (0)%Z; (0)%Z].
+Proof. exact shape_literals_unchanged. Qed.
+Print Assumptions C17_shape_literals_unchanged.
 
 Example C17_ex_fulladder : fulladder_energy [true; true; false; false; true] = 0%Z /\
                            fulladder_energy [true; true; false; true; true] = 1%Z.
